@@ -354,6 +354,11 @@ def x7_shims(text, log):
         return "vx_peekable(%s.chars())" % m.group(1)
     text = re.sub(r"\b([a-z_][a-z0-9_]*)\.chars\(\)\.peekable\(\)", peek, text)
 
+    def u16(m):
+        log.add("X7:vx_utf16_count")
+        return "vx_utf16_count(&%s)" % m.group(1)
+    text = re.sub(r"\b([a-z_][a-z0-9_]*(?:\([^()]*\))?)\.encode_utf16\(\)\.count\(\)", u16, text)
+
     def disp(m):
         log.add("X7:vx_display")
         return "vx_display(%s, %s)" % (m.group(1), m.group(2))
@@ -383,7 +388,16 @@ def x3_generic_io(text, log):
     return text2
 
 
+def x6_for_ghost_iter(text, log):
+    """`for x in e {` -> `for x in it: e {` (names Verus' ghost iterator so invariants can mention it)"""
+    def f(m):
+        log.add("X9:for-ghost-iterator-name")
+        return "%sfor %s in it: %s" % (m.group(1), m.group(2), m.group(3))
+    return re.sub(r"(^|\n)(\s*)for ([a-z_][a-z0-9_]*) in ([a-z_][a-z0-9_.()]*) (?=\{)", lambda m: "%s%sfor %s in it: %s " % (m.group(1), m.group(2), m.group(3), m.group(4)) if not log.add("X9:for-ghost-iterator-name") else "", text)
+
+
 OPTS = {
+    "forit": x6_for_ghost_iter,
     "x3": x3_generic_io,
     "x4": x4_formatter,
     "x5": x5_ref_patterns,
@@ -476,9 +490,10 @@ def parse_template(tpath):
                 cur_block = cur_fn.loops.setdefault(int(d[5:]), [])
             elif d.startswith("before ") or d.startswith("after "):
                 kind, rest = d.split(" ", 1)
-                m = re.match(r"`(.*)`$", rest.strip())
+                m = re.match(r"(?:(\d+)\s+)?`(.*)`$", rest.strip())
                 blk = []
-                (cur_fn.before if kind == "before" else cur_fn.after).append((m.group(1), blk, i + 1))
+                nth = int(m.group(1) or 1)
+                (cur_fn.before if kind == "before" else cur_fn.after).append((m.group(2).replace("\\n", "\n"), blk, i + 1, nth))
                 cur_block = blk
             elif d == "bodystart":
                 cur_block = cur_fn.bodystart
@@ -578,7 +593,7 @@ class Extractor:
                 pass
             elif o in OPTS:
                 text = OPTS[o](text, log)
-            elif o not in ("x8drop",):
+            elif o not in ("x8drop", "x4impl"):
                 raise SystemExit("unknown opt " + o)
         return text
 
@@ -602,6 +617,9 @@ class Extractor:
                     raise AnchorLost("%s: fn `%s` not found in `%s`" % (use.path, fs.name, use.selector))
                 fs._found = found
             header = cands[0][1]
+            if "x4impl" in use.top.opts:
+                self.log.setdefault("%s::impl %s" % (use.path, header), set()).add("X4:Display-impl-as-inherent-impl")
+                header = re.split(r"\bfor\b", header)[-1].strip()
             # a trait impl also needs its associated types / consts
             (k, name, start, end, kw) = cands[0]
             b = find_body_open(masked, kw)
@@ -680,16 +698,17 @@ class Extractor:
             if lb < 0:
                 raise AnchorLost("%s: loop #%d has no body" % (ident, n))
             inserts.append((lb, blk))
-        for (snip, blk, tl) in fs.before:
-            k = body.find(snip)
-            if k < 0:
-                raise AnchorLost("%s: snippet `%s` not found" % (ident, snip))
-            inserts.append((k, blk))
-        for (snip, blk, tl) in fs.after:
-            k = body.find(snip)
-            if k < 0:
-                raise AnchorLost("%s: snippet `%s` not found" % (ident, snip))
-            inserts.append((k + len(snip), blk))
+        def find_nth(snip, nth):
+            k = -1
+            for _ in range(nth):
+                k = body.find(snip, k + 1)
+                if k < 0:
+                    raise AnchorLost("%s: snippet `%s` (occurrence %d) not found" % (ident, snip, nth))
+            return k
+        for (snip, blk, tl, nth) in fs.before:
+            inserts.append((find_nth(snip, nth), blk))
+        for (snip, blk, tl, nth) in fs.after:
+            inserts.append((find_nth(snip, nth) + len(snip), blk))
         if fs.bodystart:
             inserts.append((1, fs.bodystart))
         inserts.sort(key=lambda x: x[0])
